@@ -43,11 +43,11 @@ ScriptOuts(p) ==
 
 GNext ==
     /\ Len(hist) < D
-    /\ \/ /\ Len(committed) < MaxP
+    /\ \/ /\ air = <<>> /\ Len(committed) < MaxP
           /\ (Len(committed) - txCtr < TxCap) \/ Last # <<"commit">>     \* no repeated failing commits
           /\ Commit(MkPdu(Len(committed) + 1), Len(committed) - txCtr < TxCap)
           /\ Do(<<"commit">>)
-       \/ /\ stored # <<>>
+       \/ /\ air = <<>> /\ stored # <<>>
           /\ Read(Head(stored))
           /\ Do(<<"read">>)
        \/ \E ch \in 0..1 :
